@@ -6,6 +6,7 @@ import vlib
 from vlib import Report, ToolError, log
 from gen import *
 import frames as F
+import cli
 
 
 def conform(rep, prop, groups, profiles=('release',), prefix='s', maxlen=3000, key_fn=None):
@@ -415,3 +416,173 @@ def c04(tier):
 
 
 CHECKS.update({'C02': c02, 'C03': c03, 'C04': c04})
+
+
+# ----------------------------------------------------------------------------------------- C01
+def hostile_lines(rng, tier):
+    """one representative (random fill) per input class"""
+    a = 0x484f2d
+    L = []
+    hexd = lambda n: ''.join(rng.choice('0123456789ABCDEFabcdef') for _ in range(n))
+    for n in [0, 1, 13, 14, 15, 25, 26, 27, 28, 29, 39, 40, 41, 64]:
+        L.append(list(hexd(n).encode()))
+    L.append(list(hexd(70000).encode()))
+    # every DF claim against every accepted digit count
+    for dfv in range(32):
+        for n in (14, 28, 26, 40):
+            body = '%02X' % ((dfv << 3) | rng.getrandbits(3)) + hexd((n if n in (14, 28) else n - 12) - 2)
+            L.append(list(((hexd(12) if n in (26, 40) else '') + body).encode()))
+    # boundary values of arithmetic fields in decodable formats (valid parity so that they get through)
+    ac13 = [0, 16, 16 | 7, enc_alt13(-25), enc_alt13(0), 0x1FBF, 0x1FFF, 0x100A, 0x0008, 0x0040 | 16, 0x0040]
+    for c in ac13:
+        L.append(list(short(4, c, a, rng.getrandbits(14)).encode()))
+        L.append(list(short(0, c, a, rng.getrandbits(14)).encode()))
+        L.append(list(long_(20, c, bits_of(rng.getrandbits(56), 56), a).encode()))
+        L.append(list(long_(16, c, bits_of(rng.getrandbits(56), 56), a).encode()))
+        c12 = ((c >> 7) << 6) | (c & 63)
+        for tc in (9, 18):
+            L.append(list(df17(5, a, me_airpos(tc, 0, c12, rng.getrandbits(1), rng.choice([0, 131071, 5]), rng.choice([0, 131071, 7]))).encode()))
+    for c in (0, 8191, 0x0040):
+        L.append(list(short(5, c, a).encode()))
+        L.append(list(long_(21, c, bits_of(0, 56), a).encode()))
+    for tc in range(32):
+        for st in range(8):
+            rest = rng.choice([0, (1 << 48) - 1, rng.getrandbits(48)])
+            L.append(list(df17(rng.getrandbits(3), a, pack([(tc, 5), (st, 3), (rest, 48)])).encode()))
+            if tier == 'thorough' or st in (0, 7):
+                L.append(list(df17(rng.getrandbits(3), a, pack([(tc, 5), (st, 3), (rest, 48)]), df=18).encode()))
+    for vew in (0, 1, 1023):
+        for vns in (0, 1, 1023):
+            for vr in (0, 1, 511):
+                for sgn in (0, 1):
+                    for st in (1, 2, 3, 4):
+                        L.append(list(df17(5, a, me_velocity(st, sgn, vew, sgn, vns, sgn, vr, dif=rng.choice([0, 1, 127]), sdif=sgn)).encode()))
+    mbs = [0, (1 << 56) - 1, 0x10000000000000, 0x20FFFFFFFFFFFF, 0x30000000000000, 0x30FFFFFFFFFFFF]
+    for m in mbs:
+        for dfv in (20, 21, 16):
+            L.append(list(long_(dfv, rng.getrandbits(13), bits_of(m, 56), a).encode()))
+    for mb in (mb17(1, 1, 1, 1), mb40(1, 1, 1), mb40(4095, 4095, 4095), mb50(-512, 2047, 1023, -512, 1023), mb50(511, 0, 1, 511, 1),
+               mb60(2047, 1023, 1023, -512, -512), mb60(1, 1, 1, 1, 1)):
+        for dfv in (20, 21):
+            L.append(list(long_(dfv, rng.getrandbits(13), mb, a).encode()))
+    # byte classes
+    good = df17(5, a, me_ident(4, 1, callsign_codes('HOSTILE')))
+    L += [list(b'ghijklmnopqrstuvwxyz!"#$%&()'), [0] * 30, list(good.encode()) + [0], [13], list(good.encode()) + [13],
+          list(range(0x80, 0x100)), [0xC3], [0xE2, 0x82], [0xF0, 0x9F, 0x98], list(good[:14].encode()) + [0xFF] + list(good[14:].encode()),
+          [0xC3, 0xA9] * 20, list('８Ｄ４０６２１Ｄ５８Ｃ３８２Ｄ６９０Ｃ８ＡＣ２８６３Ａ７'.encode()), [0xEF, 0xBB, 0xBF] + list(good.encode())]
+    n_rand = 100 if tier == 'quick' else 20000
+    for _ in range(n_rand):
+        k = rng.random()
+        if k < 0.3:
+            L.append([rng.getrandbits(8) for _ in range(rng.randrange(0, 60))])
+        elif k < 0.6:
+            L.append(list(hexd(rng.choice([14, 28, 26, 40])).encode()))
+        else:
+            fr = rng.choice(other_format_frames(rng.getrandbits(24) | 1, rng))
+            L.append(list(F.flip(fr, [rng.randrange(1, len(fr) * 4 + 1) for _ in range(rng.randrange(1, 4))]).encode()))
+    return [[b for b in l if b != 10] for l in L]      # one line each: no LF inside
+
+
+def c01_optsets(tier):
+    base = []
+    for U in ([], ['-U']):
+        for R in ([], ['-R']):
+            for f in ([], ['-f', '17'], ['-f', '4', '-f', '5', '-f', '20']):
+                base.append(U + R + f)
+    disp = [['-c'], ['-i', 'Q'], ['-i', ''], ['-i', 'zz'], ['-i', 'aAews'], ['-o', ''], ['-o', 'zz'], ['-o', 'sAaVvNSWEdDcC'],
+            ['-d', '0'], ['-d=-1'], ['-d', '1'], ['-d', '1000000000'], ['-d=-9223372036854775807'], ['-d', '9223372036854775807'],
+            ['-u', '0'], ['-u=-1'], ['-u', '1'], ['-u', '1000000000'], ['-u', '9000000000000000'], ['-u=-9223372036854775807'],
+            ['-u', '9223372036854775807'], ['-f', '99'], ['-f', '0', '-f', '31'], ['-c', '-f', '11'], ['-M', '17'], ['-O', 'x,y'], ['-O', '1e400, 5']]
+    return base, disp
+
+
+def c01(tier):
+    rep = Report('C01', tier)
+    rng = random.Random(vlib.seed())
+    L = hostile_lines(rng, tier)
+    base, disp = c01_optsets(tier)
+    sent_n = [0]
+
+    def sentinel():
+        sent_n[0] += 1
+        return df17(5, 0x700000 + sent_n[0] % 0xFFFF, me_ident(4, 1, callsign_codes('SENT%04d' % (sent_n[0] % 10000))))
+
+    groups = []
+    # (a) in-process: hostile line, the same line again (update path if it was accepted), then a sentinel
+    optsets = [QUIET_OFF(o) for o in base]
+    for k, opts in enumerate(base):
+        sub = L if (tier == 'thorough' or k == 0) else L[k % 4::4]
+        for i in range(0, len(sub), 40):
+            g = []
+            for l in sub[i:i + 40]:
+                g.append(reset(opts))
+                g.append(runn([l, l, list(sentinel().encode())]))
+            groups.append(g)
+    # display / numeric option values: a short mixed stream each
+    mixed = [list(x.encode()) for x in other_format_frames(0x4d2023, rng)]
+    for d in disp:
+        g = [{'c': 'reset', 'opts': d, 'slot': 0}]
+        g.append(runn(mixed + [L[15]] + [list(sentinel().encode())]))
+        for l in rng.sample(L, 12):
+            g.append(runn([l, list(sentinel().encode())]))
+        groups.append(g)
+    conform(rep, 'C01', groups, profiles=('checked', 'release'), maxlen=1500)
+    # (b) the real CLI binaries on files of hostile lines each followed by a sentinel
+    events = []
+    for prof in ('dev', 'release'):
+        binary = vlib.build_cli(prof)
+        per = 60
+        sub = L if tier == 'thorough' else L[::3]
+        jobs = []
+        for k, opts in enumerate(base + disp[:8] + disp[8:] if tier == 'thorough' else base[:4] + disp):
+            part = sub[(k * per) % max(1, len(sub) - per):][:per] if len(sub) > per else sub
+            lines = []
+            for l in part:
+                if len(l) > 5000:
+                    continue
+                lines.append(l)
+                lines.append(list(sentinel().encode()))
+            jobs.append((opts, lines))
+        for opts, lines in jobs:
+            o = list(opts)
+            quiet = 'Q' in ''.join(o[i + 1] for i in range(len(o) - 1) if o[i] == '-i')
+            has_u = any(x.startswith('-u') for x in o)
+            if not has_u:
+                o += ['--update=-1']
+            r = cli.run_cli(binary, o, data=b''.join(bytes(l) + b'\n' for l in lines), timeout=120)
+            snaps = [s for s in cli.snapshots(r['out']) if 'rows' in s]
+            last = snaps[-1] if snaps else None
+            f = [int(o[i + 1]) for i in range(len(o) - 1) if o[i] == '-f']
+            dval = 60
+            for i, x in enumerate(o):
+                if x == '-d':
+                    dval = int(o[i + 1])
+                elif x.startswith('-d='):
+                    dval = int(x[3:])
+            events.append({'e': 'cli', 'i': len(events) + 1, 'opts': o, 'profile': prof, 'quiet': quiet,
+                           'args': {'f': [f] if f else [], 'd': max(-2**31 + 1, min(2**31 - 1, dval)), 'u': -1 if not has_u else 3},
+                           'lines': lines, 'code': r['code'], 'timeout': r['code'] == -999, 'nsnaps': len(snaps),
+                           'stderr': r['err'][-300:].decode('utf-8', 'replace'),
+                           'last': [] if last is None else [{'rows': [cli.cps(x) for x in last['rows']]}]})
+    wd = vlib.workdir()
+    tr = os.path.join(wd, 'cli.trace.ndjson')
+    vlib.write_ndjson(tr, events)
+    rep.add_validation(vlib.validate([tr], 'C01'))
+    rep.extra['cli_runs'] = len(events)
+    rep.rule = ('input classes: digit counts {0,1,13,14,15,25..29,39,40,41,64,70000}; every DF 0..31 against 14/28/26/40 digits; '
+                'boundary values of every arithmetic field (altitude codes incl. N<40 and Gillham, identity, TC 0..31 x subtype 0..7, '
+                'velocity fields 0/1/1023, rate 0/1/511 both signs, CPR 0/131071, MB all-zero/all-one/register boundaries); byte classes '
+                '(non-hex, NUL, CR, 0x80-0xFF, truncated UTF-8, fullwidth digits, BOM); %d random lines. In-process: [line, line, sentinel] '
+                'through the real reader thread in the checked (overflow checks on) and release-like profiles under -U x -R x -f product '
+                'and %d display/numeric option sets; CLI: dev and release binaries on files of line+sentinel pairs. Judged: thread joined '
+                'without panic/error, exit status 0, sentinel aircraft present. Every event non-trivial; distinct by (lines, slot)'
+                % (100 if tier == 'quick' else 20000, len(disp)))
+    vlib.nt_floor(rep, 500)
+    return rep
+
+
+def QUIET_OFF(o):
+    return o
+
+
+CHECKS['C01'] = c01
